@@ -176,6 +176,7 @@ def idcStarTrace (ordf : List World → List World) (dordf kordf : List Var → 
     Nat → Event → Event → List (List Nat) × Bool
   | 0, _, _ => ([], false)
   | fuel + 1, outcomes, conditions =>
+    let onames := outcomes.keys.map (·.name)
     let here := [outcomes.length, conditions.length]
     match line1 (idStar ordf dordf G conditions) with
     | .error _ => ([here], true)
@@ -185,7 +186,13 @@ def idcStarTrace (ordf : List World → List World) (dordf kordf : List Var → 
         let (no, nc) := newOutcomesAndConditions kordf nev outcomes conditions
         let shared := nc.keys.filter (fun k => no.has k)
         let here := here ++ [no.length, nc.length, shared.length, (remainingAndMissing nev outcomes).2.length,
-          (remainingAndMissing nev conditions).2.length]
+          (remainingAndMissing nev conditions).2.length,
+          -- |names(O)|, #conditions whose name is no outcome name, all keys not self-intervened (1/0),
+          -- names(no) ⊆ names(O) (1/0), #conditions of nc whose name is not a name of no
+          (dedup' onames).length, (conditions.keys.filter (fun k => !elem' k.name onames)).length,
+          (if (outcomes ++ conditions).all (fun p => isNotSelfIntervened p.1) then 1 else 0),
+          (if no.keys.all (fun k => elem' k.name onames) then 1 else 0),
+          (nc.keys.filter (fun k => !elem' k.name (no.keys.map (·.name)))).length]
         match firstExchangeable cf no.keys nc.keys with
         | .ok (some c) =>
           match nc.get? c with
@@ -196,7 +203,8 @@ def idcStarTrace (ordf : List World → List World) (dordf kordf : List Var → 
               -- shared keys that the exchange re-subscripted (they stay as conditions under their old key)
               let split := shared.filter (fun k => !no'.has k)
               let r := idcStarTrace ordf dordf kordf G fuel no' (nc.filter (fun p => p.1 ≠ c))
-              ((here ++ [split.length]) :: r.1, r.2)
+              -- last: the exchanged condition's name is the name of some (re-associated) outcome (1/0)
+              ((here ++ [split.length, if elem' c.name (no.keys.map (·.name)) then 1 else 0]) :: r.1, r.2)
             | .error _ => ([here], true)
         | _ => ([here], true)
       | _ => ([here], true)
